@@ -3,6 +3,7 @@ import BigtoolsModel.Codec
 import BigtoolsModel.Compressed
 import BigtoolsModel.AtomsGen
 import BigtoolsModel.OverlapsGen
+import BigtoolsModel.WriterSections
 /-! # C01 — bigWig write/read round trip
 
 Models: `BBI.fileOf` (module `FileOf`) — the byte image the writer lays down for an input: chromosome ids in
@@ -142,3 +143,15 @@ theorem C01_source_overlaps_is_the_models_ov (q qs qe b1 b1s b2 b2e : Nat) :
   gen_overlaps_eq_ov q qs qe b1 b1s b2 b2e
 
 end RT
+
+namespace BW
+
+/-- **Every `items_per_slot` (D22).** The byte-level writer models cut data sections at `min items_per_slot 65535`: whatever
+    value the option has, every bigWig and bigBed data section holds fewer than 65536 items, so its 16-bit count field is
+    exact (as found, a larger `items_per_slot` made the count wrap and the reader lose `count mod 65536` items). -/
+theorem C01_data_sections_fit_the_16_bit_item_count (ips chrom fuel : Nat) (vs : List V) (es : List BedE) :
+    (∀ s ∈ cutSections (min ips 65535) chrom fuel vs, ∃ blk : List V, blk.length < 65536 ∧ s = encSection chrom blk) ∧
+    (∀ s ∈ cutBedSections (min ips 65535) chrom fuel es, ∃ blk : List BedE, blk.length < 65536 ∧ s = encBedSection chrom blk) :=
+  data_sections_fit_u16 ips chrom fuel vs es
+
+end BW
